@@ -386,6 +386,8 @@ class HistGen:
         for q in self.o["queries"]:
             if q == "read":
                 out.append(self.q_read())
+            elif q == "iter" and self.r.chance(1, 3):
+                out.append("iter2")
             else:
                 out.append(q)
         return out
@@ -406,6 +408,10 @@ class HistGen:
             if self.o["faults"] and r.chance(1, 8):
                 out.append("w eio")
                 self.count("fault-eio")
+                if r.chance(1, 3):
+                    # the natural retry: flush again with nothing new, then let the worker run
+                    out += [self.flush(), "widle"]
+                    self.count("retry-after-fault")
             elif self.o["faults"] and r.chance(1, 12):
                 out.append(f"w short:{1 + r.below(20)}")
                 self.count("fault-short")
